@@ -212,7 +212,7 @@ let quirks =
   let q = getenv_default "CHUM_QUIRKS" "000000011" in
   let b i = String.length q > i && q.[i] = '1' in
   { q_zst_noop = b 0; q_look_trunc = b 1; q_trymap_drop = b 2; q_trymap_pos = b 3; q_maperr_drop = b 4;
-    q_exact_noalt = b 5; q_emptychoice_none = b 6; q_memo_take = b 7; memo_on = b 8; nested = None }
+    q_exact_noalt = b 5; q_emptychoice_none = b 6; q_memo_take = b 7; memo_on = b 8; memo_strict = b 10; nested = None }
 let q_mapped_empty =
   let q = getenv_default "CHUM_QUIRKS" "000000011" in String.length q > 9 && q.[9] = '1'
 
